@@ -430,7 +430,7 @@ func (sc *verifC31Scn) process(ev string, b *pktBuffer, a []any) {
 		sc.nPopDone[s]++
 	case "PopErr":
 		n, ri := a[0].(int), a[1].(int)
-		sc.emit("PopErr", "s", s, "n", n, "ri", ri)
+		sc.emit("PopErr", "s", s, "left", n, "ri", ri)
 		sc.pend[s] -= ri - sc.lastRi[s] // packets pop() will not offer again (written or skipped)
 		sc.nPopDone[s]++
 		sc.nPopErr[s]++
@@ -447,11 +447,11 @@ func (sc *verifC31Scn) process(ev string, b *pktBuffer, a []any) {
 		sc.emit("ReconClose", "s", s)
 	case "Report":
 		n := a[0].(int64)
-		sc.emit("Report", "s", s, "n", n)
+		sc.emit("Report", "s", s, "amt", n)
 		sc.repSh += n
 	case "ReportErr":
 		n := a[0].(int64)
-		sc.emit("ReportErr", "s", s, "n", n)
+		sc.emit("ReportErr", "s", s, "amt", n)
 		sc.repSh -= n
 	}
 }
@@ -1212,16 +1212,16 @@ func TestVerifC31Report(t *testing.T) {
 		s := &tcpSender{cfg: cfg, stats: &stats}
 		m := s.getWriteErrM()
 		scratch := make([]byte, 0, pktHeadLen)
-		healthy, err := net.Dial("tcp", ln.Addr().String())
-		if err != nil {
-			t.Fatal(err)
-		}
 		dead, err := net.Dial("tcp", ln.Addr().String())
 		if err != nil {
 			t.Fatal(err)
 		}
 		_ = dead.Close() // every write on it fails
 		<-results        // the listener saw the dead connection end
+		healthy, err := net.Dial("tcp", ln.Addr().String())
+		if err != nil {
+			t.Fatal(err)
+		}
 		total := 0
 		var script []string
 		nops := 1 + rnd.Intn(6)
